@@ -25,6 +25,7 @@ META = {
     "required_counters": ["exempt_cases", "proxied_cases", "tunnel_cases"],
     "assumptions": ["python_socks absent"],
 }
+META["claim"] += " " + 'Also: Basic credentials of 58+ bytes, redirects whose hops differ in the proxy decision, and the same decisions through WebSocketApp.run_forever().'
 
 LABELS = ["a", "b", "ab", "ba"]
 
